@@ -237,6 +237,16 @@ def run_forwarding(repo, task):
                         ob(f'{q}:crossed:{k.arg}', False, f'{delegate}(... {k.arg}={k.value.id} ...)', q)
         return found
     n = 0
+    if task.get('pid') == 'C15':
+        # position / label of the extreme value: skipna and axis reach the arg-reduction primitive, and min goes to argmin, max to argmax
+        for mod, cls, dim in (('frame.py', 'Frame', '2d'), ('series.py', 'Series', '1d')):
+            for m in ('iloc_min', 'loc_min', 'iloc_max', 'loc_max'):
+                n += check(mod, cls, m, f"arg{m.split('_')[1]}_{dim}")
+        rep = dict(name=task['name'], status='ok' if n == 8 else 'checker-fault', items=items, failures=failures, evaluations=0, distinct=0, rule='',
+                   samples=[dict(obligation=i['name'], verdict=i['verdict']) for i in items[:3]], trusted=[], assumptions=[], wall_s=round(time.time() - t0, 2))
+        if n != 8:
+            rep['detail'] = f'{n} of 8 arg-reduction methods call their primitive exactly once: the generator no longer matches the source layout'
+        return rep
     n += check('node_iter.py', 'IterNodeWindow', '__call__', 'get_delegate')
     n += check('node_iter.py', 'IterNodeGroup', '__call__', 'get_delegate')
     n += check('node_iter.py', 'IterNodeGroupAxis', '__call__', 'get_delegate')
